@@ -359,18 +359,17 @@ pub assume_specification[u32::next_power_of_two](x: u32) -> (r: u32)
         stack@.no_duplicates(), forall|k: int| 0 <= k < stack@.len() ==> !done.contains(#[trigger] stack@[k] as int) && stack@[k] != sid,
         !done.contains(sid),
 //@}
-//@before 1 let child_idx = base.get() ^ c;{
+//@loopbody 3{
+    // snapshots at the start of the body, all reasoning at its end (order-insensitive placement)
     let ghost j0 = it3.index@ as int;
     let ghost st_before = stack@;
     let ghost h_before = helper;
     let ghost states_before = self.states@;
     let ghost map_before = state_id_map@;
+//@}
+//@loopend 3{
     proof {
         assert((c, child_id) == s1[j0]);
-    }
-//@}
-//@after 1 stack.push(child_id);{
-    proof {
         assert(stack@ == st_before.push(child_id));
         assert(stack@[stack@.len() - 1] == child_id);
         assert forall|x: u32| st_before.contains(x) implies stack@.contains(x) by {
